@@ -913,7 +913,9 @@ func (sc *specCtx) evalCall(x *ast.CallExpr) Value {
 				sc.errorf(x, "argument %d of %s has sort %s, want %s", i, name, args[i].sort, d.Args[i])
 			}
 		}
+		TS.mu.Lock()
 		TS.ufs[name] = d
+		TS.mu.Unlock()
 		return UF(name, d.Res, args...)
 	}
 	sc.errorf(x, "unknown spec function %s", name)
